@@ -7,6 +7,7 @@ import (
 	"fmt"
 	"go/types"
 	"math/big"
+	"os"
 	"sort"
 	"strings"
 	"sync"
@@ -522,6 +523,7 @@ type Assertion struct {
 	symsDone bool
 	defOf    string // for definitions: the defined constant
 	guard    string // for (=> guard fact): the guard constant
+	Block    int    // CFG block being executed when the assertion was made (-1: function-global)
 }
 
 type Decl struct {
@@ -530,19 +532,21 @@ type Decl struct {
 }
 
 type Obligation struct {
-	Name    string
-	Kind    string
-	Tags    []string
-	Func    string
-	Goal    Term
-	PC      Term
-	NAssert int // prefix of assertions available
-	NDecl   int
-	Src     string
-	Pos     string
-	Cover   bool // expect sat (vacuity guard)
-	Observe []Observation
-	Extra   []string // extra assertion strings (local to this obligation)
+	Name     string
+	Kind     string
+	Tags     []string
+	Func     string
+	Goal     Term
+	PC       Term
+	NAssert  int // prefix of assertions available
+	NDecl    int
+	Src      string
+	Pos      string
+	Cover    bool // expect sat (vacuity guard)
+	Observe  []Observation
+	Extra    []string // extra assertion strings (local to this obligation)
+	Block    int      // CFG block of the program point (-1: unknown/global)
+	BlockSet bool
 }
 
 // Observation: terms whose model values are requested for replay
@@ -559,11 +563,15 @@ type VC struct {
 	nfresh   int
 	fn       string
 	declared map[string]bool
+	curBlock int
+	anc      map[int]map[int]bool // anc[b][a]: block a can reach block b
 	prepMu   sync.Mutex
 	nprep    int
 }
 
-func newVC(w *World, fn string) *VC { return &VC{w: w, fn: fn, declared: map[string]bool{}} }
+func newVC(w *World, fn string) *VC {
+	return &VC{w: w, fn: fn, declared: map[string]bool{}, curBlock: -1}
+}
 
 func (vc *VC) fresh(prefix string, s Sort) Term {
 	vc.nfresh++
@@ -587,14 +595,14 @@ func (vc *VC) define(prefix string, t Term) Term {
 		return t
 	}
 	c := vc.fresh(prefix, t.Sort)
-	vc.asserts = append(vc.asserts, Assertion{S: "(= " + c.S + " " + t.S + ")", Label: "def"})
+	vc.asserts = append(vc.asserts, Assertion{S: "(= " + c.S + " " + t.S + ")", Label: "def", Block: -1})
 	return c
 }
 
 // defineFloat: result of an IEEE operation; always named so that it can be abstracted per obligation.
 func (vc *VC) defineFloat(prefix string, t Term) Term {
 	c := vc.fresh(prefix, t.Sort)
-	vc.asserts = append(vc.asserts, Assertion{S: "(= " + c.S + " " + t.S + ")", Label: "fdef", FloatDef: true})
+	vc.asserts = append(vc.asserts, Assertion{S: "(= " + c.S + " " + t.S + ")", Label: "fdef", FloatDef: true, Block: -1})
 	return c
 }
 
@@ -611,13 +619,16 @@ func (vc *VC) assume(t Term, label string) {
 	if t.S == "true" {
 		return
 	}
-	vc.asserts = append(vc.asserts, Assertion{S: t.S, Label: label})
+	vc.asserts = append(vc.asserts, Assertion{S: t.S, Label: label, Block: vc.curBlock})
 }
 
 func (vc *VC) oblige(o *Obligation) {
 	o.NAssert = len(vc.asserts)
 	o.NDecl = len(vc.decls)
 	o.Func = vc.fn
+	if !o.BlockSet {
+		o.Block = vc.curBlock
+	}
 	if o.Cover {
 		vc.obls = append(vc.obls, o)
 		return
@@ -835,6 +846,15 @@ func (vc *VC) relevant(o *Obligation, abstractFloats bool) ([]bool, map[string]b
 		add(vc.symbolsOf(e))
 	}
 	vc.prepAll()
+	if os.Getenv("HV_NOPRUNE") != "" {
+		for i := range keep {
+			keep[i] = !(abstractFloats && vc.asserts[i].FloatDef)
+		}
+		for _, d := range vc.decls {
+			used[d.Name] = true
+		}
+		return keep, used
+	}
 	for changed := true; changed; {
 		changed = false
 		for i := n - 1; i >= 0; i-- {
@@ -845,13 +865,13 @@ func (vc *VC) relevant(o *Obligation, abstractFloats bool) ([]bool, map[string]b
 			if abstractFloats && a.FloatDef {
 				continue
 			}
-			switch {
-			case a.defOf != "":
+			if a.defOf != "" {
 				if !used[a.defOf] {
 					continue
 				}
-			case a.guard != "":
-				if !used[a.guard] {
+			} else if a.Block >= 0 && o.Block >= 0 && vc.anc != nil {
+				// facts established in a block that cannot reach the program point are irrelevant
+				if !vc.anc[o.Block][a.Block] {
 					continue
 				}
 			}
